@@ -1,5 +1,6 @@
 import Rpcx.Gen.Atomic
 import Rpcx.Model.Discovery
+import Rpcx.Gen.DiscoveryFacts
 /-
   C14: discovery updates converge to the last published server set, filtered.
   * `keep_iff`: for metadata that parses, a server survives the filter iff it is not marked
@@ -200,5 +201,28 @@ example : ((hubRun 2 ⟨none, []⟩ [.watch 1, .watch 2, .watch 3, .publish 10, 
     the client sorts, in place, a list that belongs to the discovery and is shared with the
     publisher and the other watchers (regenerated fact) -/
 theorem tie_delivered_list_not_mutated : Gen.inPlaceSortsOfSharedLists = [] := by decide
+
+/-! ### a publication is one step -/
+
+/-- a publication split into two steps – the list is stored, the watchers are notified later – as two
+    concurrent publishers can interleave them -/
+inductive SplitEv | store (v : Nat) | notify (v : Nat)
+
+/-- (what the discovery holds, what the watcher received last) -/
+def splitRun (evs : List SplitEv) : Option Nat × Option Nat :=
+  evs.foldl (fun s e => match e with | .store v => (some v, s.2) | .notify v => (s.1, some v)) (none, none)
+
+/-- **why `Update` must store and notify inside one critical section**: two publishers, publications split –
+    the discovery ends up holding list 2, the watcher is left on list 1 for good (an earlier update
+    overwrote a later one); the hub model's `publish` is ONE step, and `tie_update_publish_atomic` is
+    the obligation that the code's is too -/
+theorem split_publish_leaves_watcher_stale :
+    splitRun [.store 1, .store 2, .notify 2, .notify 1] = (some 2, some 1) := by decide
+
+/-- the tie: in the CURRENT source `MultipleServersDiscovery.Update` stores the list and notifies every
+    watcher while holding the discovery's mutex -/
+theorem tie_update_publish_atomic :
+    Gen.discoveryUpdateAtomic = [("MultipleServersDiscovery.Update", true)] := by decide
+
 
 end Rpcx.Props.C14
